@@ -175,6 +175,10 @@ pub struct RunCfg {
     /// "multiple calls to this function will be the same as one call").
     #[serde(default)]
     pub rev_again: u8,
+    /// Order in which the `StreamOpts` builder methods are called (0..6: the
+    /// permutations of rev / interruptibility_state / interrupted_next_item_include).
+    #[serde(default)]
+    pub opts_order: u8,
 }
 
 impl RunCfg {
@@ -299,6 +303,10 @@ pub fn decode_spec(t: &mut Tape, p: &Profile) -> GraphSpec {
     } else {
         t.below(9)
     };
+    if wide {
+        // hundreds of functions need more choices than the tape holds
+        t.enable_tail();
+    }
     // medium graphs: one in `fan_den` is a fan (a hub before / a sink after all
     // others, sparse access declarations): 9 or more functions become ready by one
     // completion
@@ -313,15 +321,29 @@ pub fn decode_spec(t: &mut Tape, p: &Profile) -> GraphSpec {
     };
     let den = if wide || fan_medium {
         [40usize, 12, 40, 80][t.below(4)]
+    } else if many_types {
+        // sparse or dense declarations over the large type universe: with sparse
+        // ones a conflicting pair usually shares exactly one type
+        [60usize, 30, 6, 4][t.below(4)]
     } else {
         [4usize, 3, 6, 10][t.below(4)]
+    };
+    // with the large type universe one tape value per (function, type) would use
+    // up the tape after a few functions: the declarations are derived from one
+    // drawn salt instead
+    let salt = if many_types { t.next() as u64 | 1 } else { 0 };
+    let mix = |a: u64, b: u64| -> u64 {
+        let mut x = salt.wrapping_mul(0x9E37_79B9_7F4A_7C15) ^ a.wrapping_mul(0xBF58_476D_1CE4_E5B9) ^ b.wrapping_mul(0x94D0_49BB_1331_11EB);
+        x ^= x >> 31;
+        x = x.wrapping_mul(0xD6E8_FEB8_6659_FD93);
+        x ^ (x >> 29)
     };
     let mut fns = Vec::with_capacity(n);
     for id in 0..n {
         let mut reads = vec![];
         let mut writes = vec![];
         for ty in 0..n_types {
-            let r = t.below(den);
+            let r = if many_types { (mix(id as u64, ty as u64) % den as u64) as usize } else { t.below(den) };
             if r == den - 1 {
                 writes.push(ty);
             } else if r == den - 2 {
@@ -341,6 +363,24 @@ pub fn decode_spec(t: &mut Tape, p: &Profile) -> GraphSpec {
         }
         fns.push(TestFn { id, reads, writes });
     }
+    if many_types && n >= 2 && t.chance(1, 3) {
+        // "filler" declarations: everybody reads about half of the large type
+        // universe (read/read never conflicts), one to three functions write one
+        // type instead: each conflicting pair conflicts on exactly one type, which
+        // may be anywhere in the order in which the types were first mentioned
+        for f in fns.iter_mut() {
+            f.writes.clear();
+            f.reads = (0..n_types).filter(|ty| mix(1000 + f.id as u64, *ty as u64) % 2 == 0).collect();
+        }
+        for _ in 0..1 + t.below(3) {
+            let w = t.below(n);
+            let ty = t.below(n_types as usize) as u8;
+            fns[w].reads.retain(|x| *x != ty);
+            if !fns[w].writes.contains(&ty) {
+                fns[w].writes.push(ty);
+            }
+        }
+    }
     // hidden permutation
     let mut pos: Vec<usize> = (0..n).collect(); // pos[v] = position of v in hidden order
     for i in (1..n).rev() {
@@ -349,7 +389,7 @@ pub fn decode_spec(t: &mut Tape, p: &Profile) -> GraphSpec {
     }
     let mut edges: Vec<(usize, usize, Kind)> = Vec::new();
     if n >= 2 {
-        let variant = if huge { 1 + t.below(3) } else if wide { t.below(5) } else { 0 };
+        let variant = if huge { 1 + t.below(3) } else if wide { t.below(7) } else { 0 };
         let wide_shape = wide;
         let (wide, variant) = if fan_medium { (true, 1 + t.below(2)) } else { (wide, variant) };
         if wide && (variant == 3 && huge || variant == 4) {
@@ -369,6 +409,22 @@ pub fn decode_spec(t: &mut Tape, p: &Profile) -> GraphSpec {
             for v in 0..n {
                 if v != hub {
                     edges.push((hub, v, kind(t)));
+                }
+            }
+        } else if wide_shape && !huge && variant >= 5 {
+            // k-ary tree (variant 5) / inverted tree (variant 6) in the hidden order:
+            // one root (sink), the set of ready functions widens gradually, by k - 1
+            // per completion
+            let k = 2 + t.below(3);
+            let mut order: Vec<usize> = (0..n).collect();
+            order.sort_by_key(|v| pos[*v]);
+            for i in 1..n {
+                let parent = order[(i - 1) / k];
+                let child = order[i];
+                if variant == 5 {
+                    edges.push((parent, child, kind(t)));
+                } else {
+                    edges.push((child, parent, kind(t)));
                 }
             }
         } else if wide && variant == 2 {
@@ -446,6 +502,11 @@ fn kind(t: &mut Tape) -> Kind {
 /// Decode the run configuration.  `intr` says whether the binary has the
 /// `interruptible` feature (otherwise the strategy is always non-interruptible).
 pub fn decode_cfg(t: &mut Tape, p: &Profile, n: usize, intr: bool) -> RunCfg {
+    if n > 16 {
+        // per-function choices (failing set, yields, instant completion) of larger
+        // graphs need more values than the configuration tape holds
+        t.enable_tail();
+    }
     let api = pick_weighted(t, &p.apis);
     let mut rev = t.chance(1, 2);
     let limit = if !p.limits {
@@ -516,6 +577,7 @@ pub fn decode_cfg(t: &mut Tape, p: &Profile, n: usize, intr: bool) -> RunCfg {
     }
     let on_clone = t.chance(1, 10);
     let rev_again = if t.chance(1, 8) { 1 + t.below(2) as u8 } else { 0 };
+    let opts_order = t.below(6) as u8;
     let unwind: Vec<usize> = if api.shape.is_stream() && t.chance(1, 10) {
         let all = t.chance(1, 3);
         (0..n).filter(|_| all || t.chance(1, 3)).collect()
@@ -547,5 +609,6 @@ pub fn decode_cfg(t: &mut Tape, p: &Profile, n: usize, intr: bool) -> RunCfg {
         on_clone,
         unwind,
         rev_again,
+        opts_order,
     }
 }
